@@ -17,9 +17,10 @@ META = dict(
     bounds="generic depth-1 interchange values (leaf | list len<=2 | dict <=2 keys from a per-type vocabulary of known and foreign "
            "keys | 2-tuple | [[A],B] | {k:[A]}; leaves None/bool/int/float/str(len<=2)/bytes) + symbolic float at top/in list/in dict + "
            "type-directed near-valid values to depth 2 (sequences of length 0..3, structs with optional/extra keys, nested dataclasses)",
-    configs="50 type expressions to nesting depth 2-3 (scalars, Literal, Enum, all container constructors, struct/tuple literals, "
+    configs="57 type expressions to nesting depth 2-3 (scalars, mixin enums, sequence-keyed mappings, Literal, Enum, all container constructors, struct/tuple literals, "
             "unions, Optional, Annotated conditions, 8 dataclass shapes incl. tuple layout, aliases, hooks, init=False, nesting) + "
-            "12 groups of equivalent spellings (typing / PEP 585 / collections.abc / Optional orders / literals / bare forms); thorough: "
+            "12 groups of equivalent spellings (typing / PEP 585 / collections.abc / Optional orders / literals / bare forms) + subscripted "
+            "generic dataclasses against hand-written monomorphic classes (5 arguments, 6 wrapping constructors) + alias-order and generic-subscription histories; thorough: "
             "+ 24 type expressions of depth 3 drawn from the grammar with VERIF_SEED, on type-directed values with 3 symbolic leaf slots",
     stubs=[],
     outside=["cross-kind equal values against Literal/Enum values (True == 1 == 1.0): not judged",
